@@ -437,9 +437,30 @@ def c11_scenario(rep, binary, workdir, rng, frame_maker, attempt=0):
     from common import drive
     verdicts = drive(binary, "filter", [{"frame": f[1].hex()} for f in frames])
     frames = [f for f, v in zip(frames, verdicts) if v.get("decoded")]
+    # twin replies: two aircraft answering with the same reply bits (same flight level, same squawk, same register): for
+    # the address/parity formats the frames then differ in their last three bytes only. One twin is selected by the
+    # aircraft filter, the other is not, and they are sent back to back.
+    from common import seal as _seal
+    twins = []
+    ap = [f for f in frames if f[0] in (0, 4, 5, 16, 20, 21)]
+    for f in rng.sample(ap, min(5, len(ap))):
+        b = rng.randrange(0, 1 << 24)
+        if b == f[2] or any(b == g[2] for g in frames):
+            continue
+        tw = (f[0], _seal(f[1][:-3], b), b, [])
+        frames.append(tw)
+        twins.append((f, tw))
+    if twins:
+        rep.cls("system:twin-replies-sent")
     some = rng.sample(frames, 8)
     df_filter = rng.choice([None, sorted(set(rng.sample(dfs, 3))), [17], dfs, [rng.choice(dfs)], rng.sample(dfs, 2), [rng.choice(dfs)]])
     ac_filter = rng.choice([None, [f[2] for f in some], [f[2] for f in some[:2]] + [f[3][0] for f in some[2:5] if f[3]]])
+    if ac_filter is not None:
+        for f, tw in twins:
+            keep, drop = (f, tw) if rng.random() < 0.5 else (tw, f)
+            ac_filter = [a for a in ac_filter if a != drop[2]]
+            if keep[2] not in ac_filter:
+                ac_filter.append(keep[2])
     out_file = os.path.join(workdir, f"c11sys.{os.getpid()}.jsonl")
     if os.path.exists(out_file):
         os.unlink(out_file)
@@ -483,6 +504,9 @@ def c11_scenario(rep, binary, workdir, rng, frame_maker, attempt=0):
     try:
         order = [f[1] for f in frames]
         rng.shuffle(order)
+        for f, tw in twins:
+            order.remove(tw[1])
+            order.insert(order.index(f[1]) + rng.randrange(2), tw[1])
         run.send(0, order)
         tr = trailers(4)
         for t in tr:
